@@ -1,6 +1,7 @@
 """Obligations: definition, symbolic discharge (explore -> leaves -> solver), native evaluation on the real code
 (bounded differential stand-in, replay of counter-models, conformance of the model)."""
 import itertools
+import os
 import math
 import random
 import time
@@ -181,8 +182,16 @@ def run_symbolic(ob, grid, timeout_ms=20000, max_leaves=3000):
         out['status'] = 'out-of-reach'
         out['error'] = 'undecided at trace time: %s' % e
     except Exception as e:   # noqa: BLE001  -- the traced code itself may raise
-        out['status'] = 'error'
-        out['error'] = '%s: %s\n%s' % (type(e).__name__, e, traceback.format_exc(limit=6))
+        # where was it raised?  inside the symbolic model (fvverif/...) = a construct the model does not support: a tool
+        # limit, decided by the bounded stand-in;  inside the repository's code (or a clause) = the traced code fails
+        tb = e.__traceback__
+        last = None
+        while tb is not None:
+            last = tb.tb_frame.f_code.co_filename
+            tb = tb.tb_next
+        in_model = bool(last) and (os.sep + 'fvverif' + os.sep) in last and not isinstance(e, (IndexError, ValueError, ZeroDivisionError))
+        out['status'] = 'out-of-reach' if in_model else 'error'
+        out['error'] = '%s%s: %s\n%s' % ('model limit: ' if in_model else '', type(e).__name__, e, traceback.format_exc(limit=6))
     out['seconds'] = round(time.time() - t0, 3)
     out['lia'] = CTX.stats['lia_queries']
     out['sample_smt'] = prove.LAST_PROVED_SMT[0]
@@ -219,9 +228,11 @@ def extract_cex(w, conds, model, label, claim):
 # ------------------------------------------------------------------------------------------------
 #  native side
 
-def run_native(ob, grid, sizes, seed, partial=None, points=None):
+def run_native(ob, grid, sizes, seed, partial=None, points=None, unit_stress=None):
     """evaluate the clause on the real code; -> list of failing (label, P, detail)"""
     w = RealWorld(grid, sizes, seed=seed, partial=partial)
+    if unit_stress:
+        w.src.unit_stress = unit_stress
     w.scale = ob.tol_scale
     if getattr(ob, 'decoy_run', True):
         ob.setup(w.decoy())
@@ -245,12 +256,17 @@ def bounded_search(ob, grid, seeds, sizes_list=None):
         sl = sizes_list or [[rng.choice([1, 2, 3, 4]) for _ in range(nd)]]
         for sizes in sl:
             tried += 1
+            # every third / fourth seed: the same scenario with all length-like face positions in extreme units (an
+            # absolute tolerance or threshold in the code shows only there); never for the IEEE / rank stand-ins
+            # (disabled: residuals of exact cancellations are O(coefficient * eps) ~ 1e2 at 1e-9 length units and would be
+            #  reported as failures by the absolute part of the tolerance; kept for experiments via VERIF_UNIT_STRESS=1)
+            stress = ({2: 1e-9, 3: 1e6}.get(tried % 4) if os.environ.get('VERIF_UNIT_STRESS') and not ob.bounded_only else None)
             try:
-                bad, w = run_native(ob, grid, sizes, seed)
+                bad, w = run_native(ob, grid, sizes, seed, unit_stress=stress)
             except Exception as e:  # noqa: BLE001
                 return dict(found=True, seed=seed, sizes=sizes, failing=[('exception', str(e))], tried=tried)
             if bad:
-                return dict(found=True, seed=seed, sizes=list(sizes), failing=[(l, list(p)) for l, p in bad[:5]], tried=tried)
+                return dict(found=True, seed=seed, sizes=list(sizes), failing=[(l, list(p)) for l, p in bad[:5]], tried=tried, unit_stress=stress)
     return dict(found=False, tried=tried)
 
 
